@@ -97,6 +97,10 @@ func regressions() []hist {
 		{Initial: "partial", Slow: "write", Stopped: "slow", Dial1: true, Steps: []string{"start", "pause2", "addpeer", "pause2", "stop", "pause2", "stats", "wait"}},
 		{Initial: "empty", Slow: "write", Stopped: "silent", Dial1: true, Steps: []string{"start", "addpeer", "pause2", "stop", "pause1", "stats", "wait", "start", "addpeer", "pause2", "verify", "wait"}},
 		{Initial: "partial", Slow: "none", Stopped: "ok", Dial1: true, Steps: []string{"start", "addpeer", "wait", "addpeer", "stop", "wait"}},
+		// a piece write still in flight when the torrent is stopped and then verified (found by the C20 stress workload)
+		{Initial: "empty", Slow: "write", Stopped: "ok", Steps: []string{"start", "addpeer", "pause2", "stop", "pause1", "verify", "pause2", "wait"}},
+		{Initial: "empty", Slow: "write", Stopped: "ok", Dial1: true, Steps: []string{"start", "addpeer", "pause2", "stop", "pause1", "verify", "pause1", "start", "addpeer", "wait"}},
+		{Initial: "partial", Slow: "write", Stopped: "ok", Steps: []string{"start", "addpeer", "pause2", "stop", "pause1", "start", "addpeer", "pause1", "stop", "pause1", "verify", "wait"}},
 	}
 }
 
@@ -111,34 +115,35 @@ func randomHist(r *rand.Rand) hist {
 }
 
 type env struct {
-	h       hist
-	k       int
-	dir     string
-	l       *gen.Layout
-	truth   []byte
-	info    []byte
-	prov    *memstore.Provider
-	st      *memstore.Store
-	s       *torrent.Session
-	cfg     torrent.Config
-	t       *torrent.Torrent
-	tid     string
-	log     *evlog.Log
-	seeder  *refpeer.Listener
-	extra   []*refpeer.Listener // further honest seeders: with MaxPeerDial=1 their addresses stay queued
-	trk     *reftracker.HTTP
-	trk2    *reftracker.HTTP
-	wantRun int // 1 running, 0 stopped, -1 unknown
-	verifyPending bool
-	viol    [][2]string
-	trace   []string
-	reqSeen func() int // requests received by the seeder so far
-	slowOn  bool
-	smu     sync.Mutex
-	states  []*refpeer.SeederState
-	wg      sync.WaitGroup
-	stopAcc chan struct{}
-	removed bool
+	h                hist
+	k                int
+	dir              string
+	l                *gen.Layout
+	truth            []byte
+	info             []byte
+	prov             *memstore.Provider
+	st               *memstore.Store
+	s                *torrent.Session
+	cfg              torrent.Config
+	t                *torrent.Torrent
+	tid              string
+	log              *evlog.Log
+	seeder           *refpeer.Listener
+	extra            []*refpeer.Listener // further honest seeders: with MaxPeerDial=1 their addresses stay queued
+	trk              *reftracker.HTTP
+	trk2             *reftracker.HTTP
+	wantRun          int // 1 running, 0 stopped, -1 unknown
+	verifyPending    bool
+	startAfterVerify bool // a start was issued while a verification may still have been pending
+	viol             [][2]string
+	trace            []string
+	reqSeen          func() int // requests received by the seeder so far
+	slowOn           bool
+	smu              sync.Mutex
+	states           []*refpeer.SeederState
+	wg               sync.WaitGroup
+	stopAcc          chan struct{}
+	removed          bool
 	// dirty: a file was corrupted or truncated while the torrent was stopped and no verification has
 	// been requested since; the client cannot know about it without re-hashing
 	dirty bool
@@ -512,6 +517,8 @@ func runHistory(k int, h hist) {
 			ok = e.call("Start", func() { e.t.Start() })
 			if e.verifyPending {
 				e.wantRun = -1 // start while a verification is pending: the statement does not say who wins
+				// the verification may already be over when this start is processed: requests seen from now on are legitimate
+				e.startAfterVerify = true
 			} else if e.wantRun != -1 || true {
 				if !e.verifyPending {
 					e.wantRun = 1
@@ -525,6 +532,7 @@ func runHistory(k int, h hist) {
 			ok = e.call("Verify", func() { e.t.Verify() })
 			e.wantRun = 0
 			e.verifyPending = true
+			e.startAfterVerify = false
 			e.dirty = false // everything on disk is going to be re-hashed
 			_ = reqBefore
 		case "announce":
@@ -544,7 +552,7 @@ func runHistory(k int, h hist) {
 			reqBefore := e.reqSeen()
 			wasVerify := e.verifyPending
 			e.settle(when)
-			if wasVerify && e.reqSeen() > reqBefore {
+			if wasVerify && !e.startAfterVerify && e.reqSeen() > reqBefore {
 				// data was requested between the verify command's settle start and the end: a verification must not download
 				e.bad("verify-downloaded-data", "piece data was requested from a peer while a verification request was being carried out (%d requests)", e.reqSeen()-reqBefore)
 			}
